@@ -9,7 +9,7 @@ import torch
 from hypothesis import strategies as st
 
 from vlib import gen, ref
-from vlib.case import assert_grid_intact, grid_state, hash_noise, make_grid, tdtype
+from vlib.case import assert_grid_intact, derive_grid, grid_state, hash_noise, make_grid, model_of_grid, tdtype
 from vlib.core import EPS32, EPS64, Facet, Skip, Violation, check_close, eps_of
 
 PROPERTY = "C01"
@@ -91,8 +91,10 @@ def map_cases(draw, two=False):
         "dtype": draw(gen.dtypes()), "form": draw(st.sampled_from(["single", "list", "batch", "nd"])),
         "decimals": draw(st.sampled_from(["default", "none"])),
         "api": draw(st.sampled_from(["transform_points", "matrix", "helper", "function"])),
-        "route": draw(st.sampled_from(["center", "origin"])),
+        "route": draw(st.sampled_from(["center", "origin", "derived"])),
     }
+    if case["route"] == "derived":
+        case["derive"] = draw(gen.derivation_steps(D))
     if two:
         case["grid2"] = draw(second_grid(g, D, 2 if need2 else 1))
     return case
@@ -103,7 +105,10 @@ def second_grid(draw, g, D, min_size):
     """Second grid: independent, or related to the first (same domain / other size, only align_corners
     flipped, equal copy, translated copy) - relations under which a shortcut such as 'same grid' or
     'same domain' could wrongly be taken."""
-    rel = draw(st.sampled_from(["independent", "independent", "resized_extent", "resized_corners", "acflip", "equal", "translated"]))
+    rel = draw(st.sampled_from(["independent", "independent", "resized_extent", "resized_corners", "acflip", "equal", "translated",
+                                "derived", "derived"]))
+    if rel == "derived":  # obtained from the first Grid object itself by deepali's own methods (see build())
+        return {"rel": rel, "derive": draw(gen.derivation_steps(D)), "swap": draw(st.booleans()), "kind": "derived"}
     if rel == "independent":
         g2 = draw(gen.grids(D, min_size=min_size))
     else:
@@ -156,6 +161,16 @@ def _bound(m_to: ref.GridModel, m_from: ref.GridModel, a: str, b: str, p: np.nda
     return bound
 
 
+def build(g: dict, route: str = "center", derive=None, min_size: int = 1):
+    """Grid under test and its float64 model.  route 'derived': the grid is obtained from the constructed one by
+    deepali's own derivation methods after the parent was used (state carried by Grid objects); the model is
+    then built from the attributes the derived grid reports - the maps must be consistent with those."""
+    if route != "derived":
+        return make_grid(g, route), ref.GridModel.from_desc(g), []
+    grid, ops = derive_grid(make_grid(g), derive, min_size)
+    return grid, model_of_grid(grid), ops
+
+
 def nontrivial_grid(case) -> bool:
     g = case["grid"]
     return gen.grid_is_oblique(g) and gen.grid_is_anisotropic(g) and case.get("a") != case.get("b")
@@ -193,16 +208,28 @@ def _call_map(grid, p: torch.Tensor, a: str, b: str, api: str, decimals: str, to
     return grid.transform_points(p, A, B, to_grid=to_grid, **kw), decimals
 
 
+def build_second(grid, m, g2: dict, min_size: int = 1):
+    """Second grid of a two-grid case: from its own descriptor, or derived from the first Grid object (either
+    one may then play the role of the source grid)."""
+    if g2.get("rel") != "derived":
+        return grid, m, make_grid(g2), ref.GridModel.from_desc(g2), []
+    other, ops = derive_grid(grid, g2["derive"], min_size)
+    mo = model_of_grid(other)
+    if g2.get("swap"):
+        return other, mo, grid, m, ops
+    return grid, m, other, mo, ops
+
+
 def run_ref_model(case):
     g = case["grid"]
-    m = ref.GridModel.from_desc(g)
-    grid = make_grid(g, case["route"])
-    state = grid_state(grid)
     a, b = case["a"], case["b"]
+    min_size = 2 if any(x in ("cube", "cube_corners") for x in (a, b)) else 1
+    grid, m, ops = build(g, case["route"], case.get("derive"), min_size)
     m2, grid2 = m, None
     if "grid2" in case:
-        m2 = ref.GridModel.from_desc(case["grid2"])
-        grid2 = make_grid(case["grid2"])
+        grid, m, grid2, m2, ops2 = build_second(grid, m, case["grid2"], min_size)
+        ops = ops + ops2
+    state = grid_state(grid)
     pa = model_points(m, case["rel"], a)
     expect = m.points(pa, a, b, m2)
     dt = tdtype(case["dtype"])
@@ -222,7 +249,7 @@ def run_ref_model(case):
     assert_grid_intact(grid, state, "after " + case["api"])
     # default-align_corners helper spelling
     if grid2 is None and case["api"] == "helper":
-        dflt = "cube_corners" if g["ac"] else "cube"
+        dflt = "cube_corners" if m.ac else "cube"
         if a == "grid" and b == dflt:
             check_close(grid.index_to_cube(p, decimals=None), exp_shaped, bound, "helper_default_align_corners", "index_to_cube()")
         if b == "grid" and a == dflt:
@@ -231,10 +258,10 @@ def run_ref_model(case):
             check_close(grid.world_to_cube(p, decimals=None), exp_shaped, bound, "helper_default_align_corners", "world_to_cube()")
         if b == "world" and a == dflt:
             check_close(grid.cube_to_world(p, decimals=None), exp_shaped, bound, "helper_default_align_corners", "cube_to_world()")
-    return {"ratio": r, "nontrivial": nontrivial_grid(case) and (grid2 is None or gen.grid_is_oblique(case["grid2"])),
+    return {"ratio": r, "nontrivial": nontrivial_grid(case) and (grid2 is None or case["grid2"].get("rel") == "derived" or gen.grid_is_oblique(case["grid2"])),
             "labels": [f"{a}->{b}", f"api={case['api']}", f"dec={case['decimals']}", g["kind"], f"ac={g['ac']}", case["dtype"],
                        f"form={case['form']}", f"D={case['D']}", f"route={case['route']}"]
-            + ([f"rel={case['grid2'].get('rel')}"] if "grid2" in case else [])}
+            + ([f"rel={case['grid2'].get('rel')}"] if "grid2" in case else []) + [f"via={o}" for o in sorted(set(ops))]}
 
 
 # ---------------------------------------------------------------------------------------
@@ -266,8 +293,9 @@ def run_laws(case):
     pa_np = model_points(m, case["rel"], a)
     pa = torch.tensor(pa_np, dtype=dt)
     if case["two"]:
-        gB, gC = make_grid(case["grid2"]), make_grid(case["grid3"])
-        mB, mC = ref.GridModel.from_desc(case["grid2"]), ref.GridModel.from_desc(case["grid3"])
+        # (derived second / third grids come from the first Grid object itself; no role swap here)
+        _, _, gB, mB, _ = build_second(grid, m, dict(case["grid2"], swap=False), 2)
+        _, _, gC, mC, _ = build_second(grid, m, dict(case["grid3"], swap=False), 2)
     else:
         gB = gC = grid
         mB = mC = m
@@ -305,6 +333,8 @@ def vector_cases(draw):
             "api": draw(st.sampled_from(["method", "function", "matrix"]))}
     n = len(case["rel"])
     case["vec"] = draw(st.lists(st.lists(gen.qfloat(-2.0, 2.0, 0.001), min_size=D, max_size=D), min_size=n, max_size=n))
+    if draw(st.integers(0, 2)) == 0:
+        case["derive"] = draw(gen.derivation_steps(D))
     if case["two"]:
         case["grid2"] = draw(second_grid(g, D, 2))
     return case
@@ -315,16 +345,16 @@ def run_vectors(case):
     from deepali.core.linalg import homogeneous_transform
 
     g = case["grid"]
-    grid = make_grid(g)
-    state = grid_state(grid)
-    m = ref.GridModel.from_desc(g)
+    grid, m, ops = build(g, "derived" if "derive" in case else "center", case.get("derive"), 2)
     a, b = case["a"], case["b"]
     A, B = _axes(a), _axes(b)
     dt = tdtype(case["dtype"])
     eps = max(EPS32, eps_of(dt))
     grid2, m2 = None, m
     if case["two"]:
-        grid2, m2 = make_grid(case["grid2"]), ref.GridModel.from_desc(case["grid2"])
+        grid, m, grid2, m2, ops2 = build_second(grid, m, case["grid2"], 2)
+        ops = ops + ops2
+    state = grid_state(grid)
     # vector magnitudes: 'vec' is in index units of the source grid; convert to axes a with the model
     v_idx = np.asarray(case["vec"], dtype=np.float64)
     va = m.vectors(v_idx, "grid", a)
@@ -375,7 +405,8 @@ def run_vectors(case):
     assert_grid_intact(grid, state, "after transform_vectors")
     check_close(grid.transform_vectors(v, A, B, to_grid=grid2), exp_shaped, bound, "vectors_repeat_call", f"second call {a}->{b}")
     nt = gen.grid_is_oblique(g) and gen.grid_is_anisotropic(g) and a != b
-    return {"ratio": r, "nontrivial": nt, "labels": [f"{a}->{b}", f"api={case['api']}", f"two={case['two']}", case["dtype"]]}
+    return {"ratio": r, "nontrivial": nt, "labels": [f"{a}->{b}", f"api={case['api']}", f"two={case['two']}", case["dtype"]]
+            + ([f"rel={case['grid2'].get('rel')}"] if case["two"] else []) + [f"via={o}" for o in sorted(set(ops))]}
 
 
 # ---------------------------------------------------------------------------------------
@@ -385,16 +416,18 @@ def run_vectors(case):
 @st.composite
 def anchor_cases(draw):
     D = draw(gen.dims())
-    return {"D": D, "grid": draw(gen.grids(D, min_size=2)), "route": draw(st.sampled_from(["center", "origin"]))}
+    case = {"D": D, "grid": draw(gen.grids(D, min_size=2)), "route": draw(st.sampled_from(["center", "origin", "derived"]))}
+    if case["route"] == "derived":
+        case["derive"] = draw(gen.derivation_steps(D))
+    return case
 
 
 def run_anchors(case):
     from deepali.core import Axes
 
     g = case["grid"]
-    grid = make_grid(g, case["route"])
+    grid, m, ops = build(g, case["route"], case.get("derive"), 2)
     state = grid_state(grid)
-    m = ref.GridModel.from_desc(g)
     D = case["D"]
     n = m.n
     w = m.cond("grid", "world")
@@ -428,7 +461,7 @@ def run_anchors(case):
         check_close(step, m.s[k] * m.R[:, k], bw, "unit_step_direction", f"axis {k}")
     assert_grid_intact(grid, state, "after anchor queries")
     return {"ratio": r, "nontrivial": gen.grid_is_oblique(g) and gen.grid_is_anisotropic(g),
-            "labels": [g["kind"], f"ac={g['ac']}", f"route={case['route']}", f"D={D}"]}
+            "labels": [g["kind"], f"ac={g['ac']}", f"route={case['route']}", f"D={D}"] + [f"via={o}" for o in sorted(set(ops))]}
 
 
 # ---------------------------------------------------------------------------------------
